@@ -1,9 +1,11 @@
 package props
 
 import (
+	"github.com/volatiletech/authboss/v3/otp/twofactor/sms2fa"
 	"net/http"
 	"strings"
 
+	"verifharness/stubs"
 	"verifharness/verif"
 
 	"github.com/volatiletech/authboss/v3"
@@ -94,6 +96,10 @@ func C18_AllRoutes() {
 	}
 	v := symbolicValues()
 	form := map[string]string{"state": verif.String("q_state", 6), "error": verif.String("q_error", 2), "code": verif.String("q_code", 2)}
+	triedBefore := len(f.w.SMS.Tried)
+	if sec, has := f.preS.Lookup2(sms2fa.SessionSMSSecret); has {
+		stubs.OutstandingCodes = []string{sec} // generator contract: a fresh code differs from the outstanding one
+	}
 	_, panicked, _ := f.serve(route, v, form)
 	faulted := len(plan.fired) > 0
 	if faulted {
@@ -134,6 +140,21 @@ func C18_AllRoutes() {
 		case "POST /recover/end":
 			verif.Assert(post.RecoverSelector == "", "a session issued by a recovery token implies the token is spent in storage")
 		}
+	}
+	// ... nor an SMS code that was texted elsewhere: whatever failed, a code the session holds
+	// afterwards is still labelled with the number it was (to be) texted to - a failed send must
+	// not re-label the code of an earlier recipient as the new recipient's
+	if postSec, has := f.w.Session.Lookup2(sms2fa.SessionSMSSecret); has {
+		preSec, preHasSec := f.preS.Lookup2(sms2fa.SessionSMSSecret)
+		where := f.smsSentTo
+		fresh := false
+		if len(f.w.SMS.Tried) > triedBefore {
+			m := f.w.SMS.Tried[len(f.w.SMS.Tried)-1]
+			fresh = m.Text == postSec
+			where = verif.Ite(fresh, m.Number, where)
+		}
+		st, hasST := f.w.Session.Lookup2(sms2fa.SessionSMSSentTo)
+		verif.Assert(verif.And(verif.Or(fresh, verif.And(preHasSec, postSec == preSec)), verif.And(hasST, st == where)), "a failed request never makes an SMS code that was texted to another phone count for this one")
 	}
 	addsCredentials := route == "POST /otp/add" || route == "POST /2fa/totp/confirm" || route == "POST /2fa/sms/confirm" || route == "POST /2fa/recovery/regen"
 	if errOutcome && !addsCredentials {
